@@ -41,11 +41,20 @@ def failures_of(prop, results, cfg):
     for r in results:
         scn = f"{r['name']}[{r['transport']},v{r['version']},seed={r['seed']}]"
         if r.get("status") != "ok":
-            key = {"panic": "panic", "watchdog": "hang", "crashed": "crash"}.get(r.get("status"), "crash")
-            owns = cfg.get("owns_crashes", True)
-            if owns:
-                fails.append({"key": f"{key}:{r['name']}:{r['transport']}", "scenario": scn, "detail": (r.get("detail") or "")[:3000], "result": r})
-            continue
+            if r.get("status") == "race":
+                if cfg.get("race"):
+                    import re as _re
+                    m = _re.findall(r"openapi-protocol/go/([A-Za-z0-9_/]+\.\(?\*?[A-Za-z0-9_]*\)?\.?[A-Za-z0-9_.]*)\(\)", r.get("detail") or "")
+                    where = "+".join(sorted(set(x.split("/")[-1] for x in m[:2]))) or "library"
+                    fails.append({"key": f"race:{where}", "scenario": scn, "detail": (r.get("detail") or "")[:3000], "result": r})
+                    continue
+                # a race report does not invalidate the scenario's own verdicts for the other properties
+            else:
+                key = {"panic": "panic", "watchdog": "hang", "crashed": "crash"}.get(r.get("status"), "crash")
+                owns = cfg.get("owns_crashes", True)
+                if owns:
+                    fails.append({"key": f"{key}:{r['name']}:{r['transport']}", "scenario": scn, "detail": (r.get("detail") or "")[:3000], "result": r})
+                continue
         for v in r.get("verdicts") or []:
             if v["ok"]:
                 continue
@@ -96,10 +105,14 @@ def run(prop, cfg, tier, seed, replay):
         problems.append("proof: " + pr.get("failed_reason", "") + " [" + ", ".join(pr["failed"][:8]) + "]")
     ok, out = L.build_go_tool("harness", tags="verif")
     batches = []
+    extra_env = None
+    if ok and cfg.get("race"):
+        ok, out = L.build_go_tool("harness", tags="verif", race=True)
+        extra_env = {"OAP_SCN_BIN": os.path.join(L.BIN, "harness-race"), "OAP_UNIT_MS": "100", "OAP_PARALLEL": "8"}
     if not ok:
         problems.append("harness does not build against /repo (API changed?): " + out[-600:])
     else:
-        batches.append(run_batch(prop, tier, seed))
+        batches.append(run_batch(prop, tier, seed, extra_env))
     fails, setups = [], []
     for b in batches:
         if "error" in b:
